@@ -1,6 +1,108 @@
-(* C11 — operators never modify their input population or recorded history (placeholder while the proofs are being written). *)
-From QV Require Import Evqe.Heap Evqe.Ops_proofs.
+(* C11 — operators never modify their input population or recorded history.
+   Property theorems only.  Model: Evqe/Heap.v — the list object behind species_representatives lives in a heap
+   cell, populations hold a reference; apply_h is one operator application on (heap, population reference);
+   run_h runs an operator sequence and records every observation (argument of apply_operator, population inside a
+   result_callback payload, returned population) together with the heap of that moment, and the history (the
+   result_callback payloads in order, as the solver's population_evaluation_results list holds them).
+   legacy_spec = false is HEAD (88eddcc), legacy_spec = true the code before it. *)
+From QV Require Import Evqe.Heap Evqe.Heap_proofs Evqe.History_proofs Solver.Loop.
+Open Scope Z_scope.
 
-Theorem C11_placeholder : forall A (l : list A) i x l', set_nth l i x = Ok l' -> length l' = length l.
-Proof. exact @set_nth_length. Qed.
-Print Assumptions C11_placeholder.
+(* every operator sequence, every log, every evaluator: whatever was observed at any earlier point denotes in the
+   final heap the value it denoted when it was observed *)
+Theorem C11_frame :
+  forall (V : Type) (veqb : V -> V -> bool) (ieq : individual V -> individual V -> bool) (zero : V)
+         (ev : individual V -> result Q) (legacy_opt : bool)
+         (steps : list (op * oplog V)) (h : heap (V := V)) (arg : hpop (V := V)),
+    hp_ok h arg ->
+    let r := run_h veqb ieq zero ev legacy_opt false steps h arg [] [] in
+    forall o, In o (hr_obs r) -> deref (hr_heap r) (o_pop o) = deref (o_heap o) (o_pop o).
+Proof. exact @frame. Qed.
+Print Assumptions C11_frame.
+
+(* the per-generation history describes each generation as it was when evaluated *)
+Theorem C11_history_stable :
+  forall (V : Type) (veqb : V -> V -> bool) (ieq : individual V -> individual V -> bool) (zero : V)
+         (ev : individual V -> result Q) (legacy_opt : bool)
+         (steps : list (op * oplog V)) (h : heap (V := V)) (arg : hpop (V := V)),
+    hp_ok h arg ->
+    let r := run_h veqb ieq zero ev legacy_opt false steps h arg [] [] in
+    forall h_t hp vs b bv, In (h_t, HResult hp vs b bv) (hr_history r) -> deref (hr_heap r) hp = deref h_t hp.
+Proof. exact @history_stable. Qed.
+Print Assumptions C11_history_stable.
+
+(* The same for the operator sequence the SOLVER produces (Solver/Loop.v: _solve_by_evolution with its limit checks, break,
+   callbacks and termination criterion), instantiated with the EVQE operators on the heap: for every solver
+   configuration (operators in any number and order, limits, criterion), every estimate function, every supply of logs
+   and every fuel, each entry of the history list — in particular of population_evaluation_results inside the solver
+   result — dereferences in the heap at the end of the run to the population it denoted when result_callback was
+   called.  (hr_at r is the heap of that moment, carried as ghost data in the entry.) *)
+Theorem C11_solver_history_stable :
+  forall (V : Type) (veqb : V -> V -> bool) (ieq : individual V -> individual V -> bool) (zero : V)
+         (ev : individual V -> result Q) (legacy_opt : bool)
+         (estimate : op -> hpop (V := V) -> option Z) (Init Dist AuxEv AV : Type)
+         (measure : option Init -> individual V -> Dist) (aux_eval : AuxEv -> individual V -> AV)
+         (cfg : config (individual V) (hres (V := V)) op Init AuxEv)
+         (h0 : heap (V := V)) (pop0 : hpop (V := V)) (logs : list (oplog V)) (fuel : nat) res,
+    hp_ok h0 pop0 ->
+    let wd := evqe_world veqb ieq zero ev legacy_opt estimate Init Dist AuxEv AV measure aux_eval h0 pop0 logs in
+    let s := run (individual V) hres hpop op eworld Init Dist AuxEv AV hr_best_value hr_best cfg wd fuel in
+    finish (individual V) hres hpop op eworld Init Dist AuxEv AV cfg wd s = Ok res ->
+    forall r, In r (sr_history _ _ _ _ _ res) ->
+              deref (fst (l_w _ _ _ _ _ s)) (hr_pop r) = deref (hr_at r) (hr_pop r).
+Proof. exact @solver_result_history_stable. Qed.
+Print Assumptions C11_solver_history_stable.
+
+(* write-once cells: in the repaired variant an application only appends cells *)
+Theorem C11_cells_write_once :
+  forall (V : Type) (veqb : V -> V -> bool) (ieq : individual V -> individual V -> bool) (zero : V)
+         (ev : individual V -> result Q) (legacy_opt : bool) (o : op) (lgs : oplog V)
+         (h : heap (V := V)) (arg : hpop (V := V)) h' cbs r,
+    hp_ok h arg ->
+    apply_h veqb ieq zero ev legacy_opt false o lgs h arg = (h', cbs, r) ->
+    (exists ext, h' = h ++ ext)
+    /\ (forall out, r = Ok out -> hp_ok h' out)
+    /\ (forall c, In c cbs -> match c with HResult hp _ _ _ => hp = arg | HCount _ => True end).
+Proof. exact @apply_h_repaired. Qed.
+Print Assumptions C11_cells_write_once.
+
+(* the heap level refines the value level of C10 (both variants): same populations, same exceptions *)
+Theorem C11_heap_refines_values :
+  forall (V : Type) (veqb : V -> V -> bool) (ieq : individual V -> individual V -> bool) (zero : V)
+         (ev : individual V -> result Q) (legacy_opt legacy_spec : bool) (o : op) (lgs : oplog V)
+         (h : heap (V := V)) (arg : hpop (V := V)) (p : population V),
+    deref h arg = Ok p ->
+    let '(h', cbs, r) := apply_h veqb ieq zero ev legacy_opt legacy_spec o lgs h arg in
+    let oc := run_op veqb ieq zero ev legacy_opt o lgs p in
+    match r, snd oc with
+    | Ok out, Ok p' => deref h' out = Ok p'
+    | Err e, Err e' => e = e'
+    | _, _ => False
+    end.
+Proof. exact @apply_h_refines. Qed.
+Print Assumptions C11_heap_refines_values.
+
+(* legacy variant: speciation; selection; topological search; speciation — a population recorded earlier
+   dereferences to a longer representatives list afterwards *)
+Theorem C11_legacy_refuted :
+  is_ok (hr_result (w_run true)) = true
+  /\ map fst w_steps = [OSpeciation 0; OSelection (mkSel 0 0 (Some 1%nat)); OMutation MTopological 1; OSpeciation 0]
+  /\ exists o, In o (hr_obs (w_run true)) /\ deref (hr_heap (w_run true)) (o_pop o) <> deref (o_heap o) (o_pop o).
+Proof. exact legacy_refuted. Qed.
+Print Assumptions C11_legacy_refuted.
+
+(* non-vacuity: the same four-operator run in the repaired variant completes with 6 observations and one history
+   entry, none of which changes *)
+Example C11_example_run :
+  is_ok (hr_result (w_run false)) = true
+  /\ length (hr_obs (w_run false)) = 6%nat /\ length (hr_history (w_run false)) = 1%nat
+  /\ existsb (obs_changed (hr_heap (w_run false))) (hr_obs (w_run false)) = false.
+Proof. exact repaired_witness_stable. Qed.
+Print Assumptions C11_example_run.
+
+(* Scope of the heap: only the representatives list is a heap cell.  individuals (tuple of frozen objects),
+   species_members and species_membership are immutable VALUES of the population record in this model; that the
+   implementation never shares or mutates those objects is checked on every run by the snapshot oracle and the
+   object-identity graph (harness/props/c11.py), not proved.
+   The termination criterion of Solver/Loop.v receives the history; criteria that keep references to populations
+   are covered because the heap is part of the world, not of the criterion. *)
